@@ -103,6 +103,8 @@ func init() {
 		{"default", func() []fhirpath.CompileOption { return nil }, func() map[string]ftab.Entry { return ftab.Table(false) }},
 		{"experimental", func() []fhirpath.CompileOption { return []fhirpath.CompileOption{compopts.WithExperimentalFuncs()} },
 			func() map[string]ftab.Entry { return ftab.Table(true) }},
+		// Permissive relaxes element names, not function names: the table is the default one
+		{"permissive", func() []fhirpath.CompileOption { return []fhirpath.CompileOption{compopts.Permissive()} }, func() map[string]ftab.Entry { return ftab.Table(false) }},
 	}
 	names := func() []string {
 		set := map[string]bool{}
@@ -116,7 +118,9 @@ func init() {
 			set[k] = true
 		}
 		// near-miss spellings that must not resolve
-		for _, k := range []string{"Where", "toquantity", "convertToDateTime", "is", "as", "nosuch"} {
+		for _, k := range []string{"Where", "toquantity", "convertToDateTime", "is", "as", "nosuch",
+			// other casings and separators of real names: no configuration folds them onto the table's spelling
+			"Exists", "EXISTS", "Iif", "ToString", "to_string", "all_true", "AllTrue", "Count", "first_", "starts_with", "StartsWith", "to-string", "Empty", "Not", "children_"} {
 			set[k] = true
 		}
 		var out []string
